@@ -6,4 +6,7 @@ import Ufw.Props.C07
 #print axioms Ufw.Props.C07.crc_burst16
 #print axioms Ufw.Props.C07.header_burst_rejected
 #print axioms Ufw.Props.C07.payload_burst_rejected
+#print axioms Ufw.Props.C07.crc_two_bit
+#print axioms Ufw.Props.C07.header_two_bit_rejected
+#print axioms Ufw.Props.C07.payload_two_bit_rejected
 #print axioms Ufw.Props.C07.burst_across_size_and_checksum_accepted
